@@ -85,7 +85,23 @@ def injections(doc, ver):
     return out
 
 
-CONTROLS = ["none", "open-vocab-outside", "unregistered-extension-definition", "spec-property-via-custom_properties"]
+CONTROLS = ["none", "open-vocab-outside", "unregistered-extension-definition", "spec-property-via-custom_properties", "registered-toplevel-property-via-custom_properties"]
+C04_TOPLEVEL_EXT = "extension-definition--a1b2c3d4-0000-4000-8000-00000000c0f4"
+_c04_registered = [False]
+
+
+def ensure_c04_extension():
+    """A registered toplevel-property-extension of the harness's own (property rank_c04)."""
+    if _c04_registered[0]:
+        return
+    import stix2
+    from stix2 import registry
+    from stix2.properties import IntegerProperty
+    if registry.class_for_type(C04_TOPLEVEL_EXT, "2.1", "extensions") is None:
+        @stix2.v21.CustomExtension(C04_TOPLEVEL_EXT, [("rank_c04", IntegerProperty())])
+        class C04TopLevelExt(object):
+            extension_type = "toplevel-property-extension"
+    _c04_registered[0] = True
 
 
 def control_edit(doc, ver, which):
@@ -104,6 +120,14 @@ def control_edit(doc, ver, which):
         name = names[len(json.dumps(doc, sort_keys=True)) % len(names)]
         return {"path": ["custom_properties"], "op": "add", "kind": "control:spec-property-via-custom_properties", "value": {name: doc[name]},
                 "also_del": [name]}
+    if which == "registered-toplevel-property-via-custom_properties":
+        # a property that a REGISTERED top-level extension defines, handed over through custom_properties=: not custom either
+        if ver != "2.1" or "extensions" not in m.props(cname) or doc["type"] == "marking-definition":
+            return None
+        ext = dict(doc.get("extensions", {}))
+        ext[C04_TOPLEVEL_EXT] = {"extension_type": "toplevel-property-extension"}
+        return {"path": ["custom_properties"], "op": "add", "kind": "control:registered-toplevel-property-via-custom_properties", "value": {"rank_c04": 5},
+                "also_set": {"extensions": ext}}
     if which == "unregistered-extension-definition":
         if ver != "2.1" or "extensions" not in m.props(cname) or doc["type"] == "marking-definition":
             return None
@@ -267,6 +291,7 @@ def call(entry, payload, ver, allow_custom):
 
 def check_case(case):
     import stix2
+    ensure_c04_extension()
     ver, doc = case["ver"], case["doc"]
     edit = case.get("edit")
     entry = case["entry"]
@@ -291,7 +316,7 @@ def check_case(case):
     kind = edit["kind"] if edit else "control:none"
     is_control = kind.startswith("control:")
     site = kind.split(":")[0] + (":" + kind.split(":")[1] if kind.count(":") and not is_control else "")
-    if kind == "control:spec-property-via-custom_properties" and entry != "constructor":
+    if kind in ("control:spec-property-via-custom_properties", "control:registered-toplevel-property-via-custom_properties") and entry != "constructor":
         return None      # `custom_properties` is a keyword of the constructors; in a parsed document it is just an unknown key
     if kind == "custom_properties-key" and entry == "constructor":
         return fails   # the custom_properties= constructor keyword is the documented way to request custom properties
